@@ -72,6 +72,7 @@ struct St {
     bytes_since_pass: usize,
     /// ... or undecodable data (also older data still in its buffer) was dropped since then.
     garbage_since_pass: bool,
+    retry_overdue_reported: bool,
     /// Destination of the station's last request that expects a reply (and whether it was a GAP
     /// poll), until something is consumed.
     awaiting: Option<(u8, bool)>,
@@ -125,6 +126,7 @@ impl HandoverMonitor {
                     pre_las: 0,
                     bytes_since_pass: 0,
                     garbage_since_pass: false,
+                    retry_overdue_reported: false,
                     awaiting: None,
                     last_valid_activity: 0,
                 })
@@ -181,6 +183,34 @@ impl Monitor for HandoverMonitor {
         let i = p.st;
         let ts = w.stations[i].cfg.addr;
         self.st[i].pre_las = p.pre.las;
+        // After an unanswered pass (not a single byte reached the station) the station must act
+        // when the slot time is over: repeat the pass, or remove the successor and pass on.
+        if let Hs::Passed { to, end, tx: pass_tx, .. } = self.st[i].hs {
+            let cfg = &w.stations[i].cfg;
+            let slot = w.slot_ticks(i);
+            let by = end + slot + w.us(4 * cfg.p_max_us + cfg.rx_chunk_us + 4) + tol_ticks(w, i, 2, slot);
+            if p.t > by && p.txs.is_empty() && self.st[i].bytes_since_pass == 0 && !self.st[i].garbage_since_pass && p.new_rx_bytes == 0 && p.rx.is_empty() && p.post.in_ring && p.post.online {
+                // (nothing at all on the wire either: a transmission the station could not see,
+                // e.g. during its own, still makes it wait)
+                let bus = w.bus.borrow();
+                let quiet = bus.txs.len() == pass_tx + 1;
+                if quiet && !self.st[i].retry_overdue_reported {
+                    self.st[i].retry_overdue_reported = true;
+                    w.violate(
+                        self.prop,
+                        "handover.retry",
+                        "unanswered-pass-not-repeated",
+                        Some(ts),
+                        format!(
+                            "#{ts} passed the token to #{to}, the bus stayed completely silent for {} bit times (slot time {} bit times), and the station neither repeats the pass nor passes on",
+                            (p.t - end) / BIT,
+                            cfg.slot_bits
+                        ),
+                    );
+                    return;
+                }
+            }
+        }
         let garbage_before = self.st[i].garbage_since_pass && self.st[i].bytes_since_pass > 0;
         self.st[i].bytes_since_pass += p.new_rx_bytes;
         if p.new_rx_bytes > 0 || p.rx.iter().any(|r| !matches!(r.verdict, RxVerdict::Consumed { .. })) {
@@ -539,6 +569,7 @@ impl Monitor for HandoverMonitor {
                         s.hs = Hs::Passed { to, attempt: attempt + 1, end: tx.end(), heard: false, tx: idx };
                         s.bytes_since_pass = 0;
                         s.garbage_since_pass = false;
+                        s.retry_overdue_reported = false;
                         return;
                     }
                     // a different destination: only after three attempts, with the silent one removed
@@ -592,6 +623,7 @@ impl Monitor for HandoverMonitor {
                     s.hs = Hs::Passed { to: *da, attempt: 1, end: tx.end(), heard: false, tx: idx };
                     s.bytes_since_pass = 0;
                     s.garbage_since_pass = false;
+                    s.retry_overdue_reported = false;
                 }
             }
         }
